@@ -117,6 +117,8 @@ def expected_dfa(ctx, text):
 class Sim(object):
     """symbolic maximal munch on X = left . C . right . Sigma*   (right None: X = left . C, input ends after w)."""
 
+    KEEP = 1      # lookahead steps remembered beyond a token's last accept (plus the character the lexer died on)
+
     def __init__(self, munch, cnfa, left, right):
         self.m = munch
         self.left, self.right = left, right
@@ -217,8 +219,6 @@ class Sim(object):
                         queue.append(st2)
         return outcomes, parent
 
-    KEEP = 2
-
     def chain(self, parent, st):
         """[(char, node before reading it, state after)] from the token start to st."""
         out = []
@@ -260,8 +260,8 @@ class Sim(object):
                     violations.append({"kind": "no token matches", "at": s, "witness": full})
                     continue
                 tag, v = la
-                if since is not None:
-                    cut = len(path) - (len(since) - (1 if dead is not None and since and since[-1][0] == dead and len(since) > 0 and self._dead_in(since, dead, st) else 0))
+                if st[3] is not None:             # steps the path read beyond its last accept
+                    cut = len(path) - len(st[3])
                 else:
                     cut = max(i for i, (_, _, after) in enumerate(path) if dfa.tag[after[0]] == tag and after[1] == v) + 1
                 text = chars[:cut]
@@ -421,11 +421,20 @@ def excluded_names(ctx, short=4):
         start = (d_id.start, d_lx.start)
         finite = not (start in useful and cyclic(start))
         words = []
+        depth = {start: 0}                  # length of the shortest member, to cut the listing of an infinite family
+        bfs = deque([start])
+        while bfs:
+            x = bfs.popleft()
+            for _, n in succ.get(x, []):
+                if n in useful and n not in depth:
+                    depth[n] = depth[x] + 1
+                    bfs.append(n)
+        limit = max(short, min([depth[x] for x in good if x in depth] or [0]) + 1)
 
         def rec(pq, w):
             if pq in good:
                 words.append(w)
-            if not finite and len(w) == short:
+            if not finite and len(w) == limit:
                 return
             for ch in chars:
                 a = bisect.bisect_right(cuts, ord(ch)) - 1
@@ -507,20 +516,13 @@ def run(ctx):
                         status, detail, cex = res
                         return (False if status == "failed" else "undecided"), detail, cex
             return True, "%d contexts (left %s x right %s); expected %s" % (n, LEFT, ["<end of input>" if r is None else r for r in RIGHT], expected)
-        g.check(kind, "%s, with token boundaries exactly at both ends, whatever follows, in every printer context" % goal, one,
-                witness_families=["roundtrip_literals"])
+        g.check(kind, "%s, with token boundaries exactly at both ends, whatever follows, in every printer context" % goal, one)
 
-    def seq_note():
-        toks = munch.tokens("[1,2]", keep_skipped=True)
-        shown = [ctx.token_name(t) for t, _ in toks]
-        if "SEQUENCE" not in shown:
-            return False, "'[1,2]' is lexed as %s: the SEQUENCE phenomenon the printer's comma-space convention avoids does not exist" % shown, {"tokens": shown}
-        ctx.note("canon_lex: without the space, '[1,2]' lexes as %s (a SEQUENCE token, which no parser rule accepts in a list): the printer's "
-                 "', ' separator is load-bearing" % shown)
-        return True, "'[1,2]' -> %s" % shown
-    g.check("sequence_needs_no_space", "record: numbers separated by a bare comma DO lex as one SEQUENCE token (so the lemma number_list depends on "
-            "the space the printer emits)", seq_note)
     try:
+        shown = [ctx.token_name(t) for t, _ in munch.tokens("[1,2]", keep_skipped=True)]
+        ctx.note("canon_lex: without the space after the comma, '[1,2]' lexes as %s%s" % (shown, (
+            " - a SEQUENCE token, which no parser rule accepts in a list: the printer's ', ' separator is load-bearing (lemma number_list "
+            "holds only because of it)") if "SEQUENCE" in shown else ""))
         ex = excluded_names(ctx)
         ctx.extra["canon_lex_excluded_names"] = ex
         fin = sorted(w for v in ex.values() if v["finite"] for w in v["words"])
@@ -531,11 +533,10 @@ def run(ctx):
         ctx.note("canon_lex/complex: the leading '-' of a negative real part is absorbed into the single COMPLEX token; for plain numbers the "
                  "'-' is a separate MINUS token")
         ctx.note("canon_lex/string: a string containing CR is not lexed as STR either (the STR rule excludes CR as well as LF and '\"')")
-        bounded_cross_check(ctx, munch)
+        bounded_cross_check(ctx, munch, cap=2000 if ctx.tier == "thorough" else 250)
     except Exception as e:
         ctx.errors.append("canon_lex: notes/bounded: %s: %s" % (type(e).__name__, e))
     return g.obligations
 
 
-ASSUMPTIONS = ["A-antlr-lexer: the runtime lexer is maximal munch over the ATN, first rule wins ties, skip drops the token",
-               "A-cpython-format: repr/str of ints, finite floats and complex numbers lie in the regular sets stated in atnk/canon_lex.py"]
+ASSUMPTIONS = ["A-antlr-lexer", "A-cpython-format"]
